@@ -97,7 +97,6 @@ func C06_HasherExact() {
 		return verif.StringN(label+"74", 74)
 	}
 	pw := pick("pw")
-	other := pick("other")
 	hash, err := h.GenerateHash(pw)
 	verif.Witness(err == nil, "hash-generated")
 	verif.Witness(err != nil, "password-refused")
@@ -105,12 +104,13 @@ func C06_HasherExact() {
 		verif.Assert(hash == "", "a refused password produces no hash")
 		return
 	}
+	verif.Assert(!verif.Exposes(hash, pw), "the hash does not contain the password")
 	verif.Assert(h.CompareHashAndPassword(hash, pw) == nil, "the hash verifies the password it was generated from")
+	other := pick("other")
 	// "other": any different password the hasher accepts as a password (a previous or a later
 	// password of the account). Longer inputs share bcrypt's 72-byte key with their prefix and
 	// are no passwords of any account.
 	if _, err2 := h.GenerateHash(other); err2 == nil && other != pw {
 		verif.Assert(h.CompareHashAndPassword(hash, other) != nil, "the hash verifies no other password")
 	}
-	verif.Assert(!verif.Exposes(hash, pw), "the hash does not contain the password")
 }
